@@ -204,6 +204,15 @@ func init() {
 		return normString(append([]value{}, buf...))
 	})
 	reg("(*strings.Builder).copyCheck", func(fr *frame, args []value) value { return nil })
+	// run-time errors raised by the engine carry their full message as the value
+	reg("(runtime.errorString).Error", func(fr *frame, args []value) value {
+		msg := toString(args[0])
+		if !strings.HasPrefix(msg, "runtime error: ") {
+			msg = "runtime error: " + msg
+		}
+		return msg
+	})
+	reg("(runtime.errorString).RuntimeError", func(fr *frame, args []value) value { return nil })
 	reg("(*strings.Builder).grow", nil)
 	delete(intrinsics, "(*strings.Builder).grow")
 
